@@ -107,6 +107,53 @@ def _worker(arg):
     return stats, out
 
 
+def lopsided_histories(n):
+    """one long chain (first children) of n blocks and a stale tip / a stale 2-block branch left behind at height 1, 2 or 5,
+    arriving first, early or late: histories as path tuples"""
+    chain = [tuple([0] * h) for h in range(1, n + 1)]
+    out = []
+    for d in (1, 2, 5):
+        stale = tuple([0] * (d - 1)) + (1,)
+        for extra in ([stale], [stale, stale + (0,)]):
+            for at in (d - 1, d, d + 3):             # the stale blocks arrive when the chain has height `at`
+                out.append(tuple(chain[:at] + extra + chain[at:]))
+    return out
+
+
+def _lopsided_worker(arg):
+    hist, validated = arg
+    ledger.setup()
+    from .. import seams
+    from skepticoin.coinstate import CoinState
+    seams.retarget_period(10080, 1209600)
+    uni = make_universe()
+    now = world.T0 + 10**7
+    cs = CoinState.empty().add_block_no_validation(uni.root.block)
+    fc = refmodel.ForkChoice()
+    fc.add(uni.root)
+    n = 0
+    for i, p in enumerate(hist):
+        node = uni.get(p)
+        try:
+            cs = cs.add_block(node.block, now) if validated else cs.add_block_no_validation(node.block)
+        except Exception as e:
+            return n, ('rejected', "valid block refused: %r" % (e,), hist[:i + 1])
+        fc.add(node)
+        n += 1
+        ids = {m.bid: m for m in fc.order}
+        d = None
+        if cs.current_chain_hash != fc.head().bid:
+            d = ('head', "head is not the first-seen block of greatest height")
+        elif set(cs.heads.keys()) != fc.tips():
+            d = ('tips', "tip set has %d entries %s, blocks without stored children: %s" % (
+                len(cs.heads), sorted(ids[b].height for b in cs.heads if b in ids), sorted(ids[b].height for b in fc.tips())))
+        elif i < 12 or i == len(hist) - 1 or i % 16 == 0:
+            d = compare(cs, fc, ids)
+        if d:
+            return n, (d[0], d[1] + " (one chain of %d blocks and a stale tip left far behind)" % fc.head().height, hist[:i + 1])
+    return n, None
+
+
 def prefixes(uni, k):
     """all parent-choice sequences of length k (as histories)"""
     res = [()]
@@ -136,6 +183,14 @@ def run(ctx):
         random.Random(ctx.seed).shuffle(jobs)
     res = ctx.pmap(_worker, jobs)
     tot = {}
+    # long lopsided trees: a tip left 10, 100, ... heights behind must stay a reported tip
+    N = 130 if ctx.quick else 400
+    lh = lopsided_histories(N)
+    lres = ctx.pmap(_lopsided_worker, [(h, v) for h in lh for v in (True, False)])
+    tot['lopsided_arrivals'] = sum(r[0] for r in lres)
+    for cnt, bad in lres:
+        if bad:
+            res.append(({}, [bad]))
     for st, out in res:
         for k, v in st.items():
             tot[k] = tot.get(k, 0) + v
@@ -151,12 +206,14 @@ def run(ctx):
         'states': tot['states'] + 1, 'transitions': tot['transitions'],
         'traces_validated_against_impl': tot['transitions'],
         'samples': [ledger.hist_str(prefixes(uni, 4)[7]), ledger.hist_str(prefixes(uni, 4)[23])],
-        'complete_sequences': tot['complete'], 'exhaustive': True,
+        'complete_sequences': tot['complete'], 'exhaustive': True, 'lopsided_tree_arrivals': tot['lopsided_arrivals'],
+        'lopsided_trees': {'chain_length': N, 'histories': len(lh)},
         'bounds': {'blocks_validated_path': n, 'blocks_unvalidated_path': nv},
         'ties_where_later_arrival_has_smaller_id': tot['tie_later_smaller'],
         'ties_where_later_arrival_has_larger_id': tot['tie_later_larger'], 'reorganisations': tot['reorgs'],
         'rule': "all n! parent-choice sequences (no de-duplication; prefixes shared); every arrival is one lock-step "
-                "comparison implementation vs reference fork choice",
+                "comparison implementation vs reference fork choice; plus %d histories of one %d-block chain with a stale tip / "
+                "2-block branch left behind at height 1, 2 or 5 (arriving first, early or late), both entry points" % (len(lh), N),
     })
     seams_note = "third job family: retarget period rebound to 2 so that targets differ between competing branches"
     ctx.assumptions.append(seams_note)
